@@ -116,7 +116,7 @@ func init() {
 		base := intArg(m, args[1], "FormatInt base")
 		s, ok := m.formatInt(fr, args[0].(T), base, true)
 		if !ok {
-			m.unsupported("strconv.FormatInt of symbolic value in base %d", base)
+			return runRealBody{} // other bases: the library's own digit loop is interpreted
 		}
 		return s
 	})
@@ -124,7 +124,7 @@ func init() {
 		base := intArg(m, args[1], "FormatUint base")
 		s, ok := m.formatInt(fr, args[0].(T), base, false)
 		if !ok {
-			m.unsupported("strconv.FormatUint of symbolic value in base %d", base)
+			return runRealBody{}
 		}
 		return s
 	})
